@@ -17,7 +17,7 @@
 using namespace OP2Utility::Stream;
 using json = nlohmann::json;
 
-struct Tr { int s; std::string op, a, b, cls; bool ok, free; int n; std::vector<unsigned char> data; std::vector<std::array<long,3>> to; int toId; unsigned long long av, bv; };
+struct Tr { int s; std::string op, a, b, cls, site; int code = 0; bool ok, free; int n; std::vector<unsigned char> data; std::vector<std::array<long,3>> to; int toId; unsigned long long av, bv; };
 static std::vector<std::vector<Tr>> REL;                 // by state id
 static std::unordered_map<std::string,int> STATE_ID;
 static std::vector<unsigned char> CONTENT;
@@ -47,7 +47,9 @@ static std::vector<S> fresh() {
 // current walk, for crash reports
 static const Tr* CUR[64]; static int CURLEN = 0, CURSTEP = 0;
 static std::string describe_walk(int upto) { std::string p; for (int i = 0; i <= upto && i < CURLEN; ++i) { const Tr* t = CUR[i]; p += t->op + "(" + t->a + (t->op == "SliceAt" ? "," + t->b : "") + ")@" + std::to_string(t->s) + " "; } return p; }
-static std::string site_of(const Tr& t) { return BACKEND + "." + t.op + "/" + t.cls; }
+static const std::string& site_of(const Tr& t) { return t.site; }
+enum { OP_OTHER = 0, OP_READ, OP_READPARTIAL, OP_PEEK, OP_SEEK, OP_SEEKF, OP_SEEKB, OP_SEEKEND, OP_SEEKBEGIN };
+static int op_code(const std::string& o) { return o == "Read" ? OP_READ : o == "ReadPartial" ? OP_READPARTIAL : o == "Peek" ? OP_PEEK : o == "Seek" ? OP_SEEK : o == "SeekForward" ? OP_SEEKF : o == "SeekBackward" ? OP_SEEKB : o == "SeekEnd" ? OP_SEEKEND : o == "SeekBeginning" ? OP_SEEKBEGIN : OP_OTHER; }
 static void describe_for_crash() { if (CURLEN == 0) return; const Tr& t = *CUR[CURSTEP < CURLEN ? CURSTEP : CURLEN - 1]; Proto::sanitize(Proto::g_site, sizeof Proto::g_site, site_of(t)); Proto::sanitize(Proto::g_detail, sizeof Proto::g_detail, "content=" + json(CONTENT).dump() + " walk: " + describe_walk(CURSTEP)); }
 
 static long long STEPS = 0;
@@ -58,14 +60,14 @@ static bool apply(std::vector<S>& L, const Tr& t, int step, int& stateId) {
 	unsigned char buf[64]; memset(buf, 0xEE, sizeof buf);
 	bool ok = true; unsigned long long n = 0; std::vector<unsigned char> got; bool hasData = false;
 	try {
-		if (t.op == "Read") { r.Read(buf + 8, (std::size_t)t.av); n = t.av; hasData = true; }
-		else if (t.op == "ReadPartial") { n = r.ReadPartial(buf + 8, (std::size_t)t.av); hasData = true; }
-		else if (t.op == "Peek") { r.Peek(buf + 8, (std::size_t)t.av); n = t.av; hasData = true; }
-		else if (t.op == "Seek") r.Seek(t.av);
-		else if (t.op == "SeekForward") r.SeekForward(t.av);
-		else if (t.op == "SeekBackward") r.SeekBackward(t.av);
-		else if (t.op == "SeekEnd") r.SeekEnd();
-		else if (t.op == "SeekBeginning") r.SeekBeginning();
+		if (t.code == OP_READ) { r.Read(buf + 8, (std::size_t)t.av); n = t.av; hasData = true; }
+		else if (t.code == OP_READPARTIAL) { n = r.ReadPartial(buf + 8, (std::size_t)t.av); hasData = true; }
+		else if (t.code == OP_PEEK) { r.Peek(buf + 8, (std::size_t)t.av); n = t.av; hasData = true; }
+		else if (t.code == OP_SEEK) r.Seek(t.av);
+		else if (t.code == OP_SEEKF) r.SeekForward(t.av);
+		else if (t.code == OP_SEEKB) r.SeekBackward(t.av);
+		else if (t.code == OP_SEEKEND) r.SeekEnd();
+		else if (t.code == OP_SEEKBEGIN) r.SeekBeginning();
 		else if (t.op == "SliceAt") L.push_back(s.sliceAt(t.av, t.bv));
 		else if (t.op == "SliceHere") L.push_back(s.sliceHere(t.av));
 		else if (t.op == "Drop") L.pop_back();
@@ -84,11 +86,11 @@ static bool apply(std::vector<S>& L, const Tr& t, int step, int& stateId) {
 			else if (t.op == "ReadContainer32") { std::vector<uint32_t> v(cnt, 0xEEEEEEEEu); r.Read(v); n = cnt * 4; if (n) memcpy(buf + 8, v.data(), n); } else { std::vector<uint64_t> v(cnt, 0xEEEEEEEEEEEEEEEEull); r.Read(v); n = cnt * 8; if (n) memcpy(buf + 8, v.data(), n); } }
 		else if (t.op == "ReadCString") { std::string str = r.ReadNullTerminatedString((std::size_t)t.av); got.assign(str.begin(), str.end()); n = got.size(); }
 	} catch (const std::exception&) { ok = false; }
-	const std::string site = site_of(t);
+	const std::string& site = site_of(t);
 	auto where = [&] { return "content=" + json(CONTENT).dump() + " walk: " + describe_walk(step); };
 	if (ok != t.ok) { Proto::mismatch(site, ok ? "accepted-should-refuse" : "refused-should-accept", where()); return false; }
 	if (ok && hasData) { got.assign(buf + 8, buf + 8 + (n <= 48 ? n : 48)); }
-	if (ok && (hasData || !got.empty() || t.op.rfind("ReadPre", 0) == 0 || t.op == "ReadCString")) {
+	if (ok && (hasData || !got.empty() || (t.code == OP_OTHER && (t.op.rfind("ReadPre", 0) == 0 || t.op == "ReadCString")))) {
 		if ((long long)n != t.n) { Proto::mismatch(site, "count", where() + " returned " + std::to_string(n) + " want " + std::to_string(t.n)); return false; }
 		if (got != t.data) { Proto::mismatch(site, "bytes", where() + " got " + json(got).dump() + " want " + json(t.data).dump()); return false; }
 		for (int i = 0; i < 8; ++i) if (buf[i] != 0xEE) { Proto::mismatch(site, "wrote-before-buffer", where()); return false; }
@@ -108,7 +110,7 @@ static bool apply(std::vector<S>& L, const Tr& t, int step, int& stateId) {
 		if (pos != (unsigned long long)t.to[i][2] || len != (unsigned long long)t.to[i][1]) {
 			Proto::mismatch(site, ok ? (acting ? "state" : "other-stream-changed") : "state-after-failure", where() + " stream " + std::to_string(i + 1) + " pos=" + std::to_string((long long)pos) + " len=" + std::to_string((long long)len) + " want pos=" + std::to_string(t.to[i][2]) + " len=" + std::to_string(t.to[i][1]));
 			return false; }
-		obs.push_back({t.to[i][0], t.to[i][1], t.to[i][2]});
+		if (t.free) obs.push_back({t.to[i][0], t.to[i][1], t.to[i][2]});
 	}
 	if (t.free) { auto it = STATE_ID.find(obs.dump()); if (it == STATE_ID.end()) { Proto::mismatch(site, "state-after-failure", where() + " unreachable state " + obs.dump()); return false; } stateId = it->second; }
 	else stateId = t.toId;
@@ -132,7 +134,7 @@ int main(int argc, char** argv) {
 	// load the relation
 	{ std::ifstream f(relPath); std::string line; std::vector<std::pair<int, json>> pend;
 		while (std::getline(f, line)) { if (line.empty()) continue; json j = json::parse(line); int from = state_id(j["f"]); int to = state_id(j["t"]);
-			Tr t; t.s = j["s"]; t.op = j["op"]; t.a = j["a"]; t.b = j["b"]; t.cls = j["cls"]; t.ok = j["res"] == "ok"; t.free = j["free"]; t.n = j["n"]; for (auto& x : j["data"]) t.data.push_back((unsigned char)x.get<int>());
+			Tr t; t.s = j["s"]; t.op = j["op"]; t.a = j["a"]; t.b = j["b"]; t.cls = j["cls"]; t.site = BACKEND + "." + t.op + "/" + t.cls; t.code = op_code(t.op); t.ok = j["res"] == "ok"; t.free = j["free"]; t.n = j["n"]; for (auto& x : j["data"]) t.data.push_back((unsigned char)x.get<int>());
 			for (auto& st : j["t"]) t.to.push_back({st[0].get<long>(), st[1].get<long>(), st[2].get<long>()}); t.toId = to; t.av = SymArg(t.a); t.bv = SymArg(t.b);
 			REL[from].push_back(std::move(t)); } }
 	json init = json::array({json::array({0, (long)CONTENT.size(), 0})}); int initId = state_id(init);
